@@ -11,7 +11,7 @@ import (
 
 func init() {
 	Register(&Scenario{
-		Prop: "C03", Run: scenarioC03, QuickRuns: 1200, ThoroughRuns: 30000, Level: "exploration",
+		Prop: "C03", Run: scenarioC03, QuickRuns: 7200, ThoroughRuns: 180000, Level: "exploration",
 		Rule:       "one run = one seeded population followed over its whole life: a ledger of every gene and node of every organism that ever lived (innovation -> (source, target, recurrence), node id -> role); per generation: fresh numbers and ids exceed everything held before, identical structural innovations of one generation carry identical numbers (sequential executor), the innovation record is empty after the turnover; plus twin-mutation probes against the reference registry (the same structural mutation replayed on a twin must reuse the recorded numbers, near-miss records must not be reused). A case is one generation; non-trivial when it issued at least one new innovation number; distinct by (generation, new-number count, max innovation)",
 		RealParts:  []string{"neat/genetics population, species, epoch executors, mutators and their innovation lookup", "Population counters and innovation list (real), read through the public Innovations() accessor"},
 		StubParts:  []string{"fitness assignment", "reference innovation registry for the twin-mutation probes", "goroutine choice for parallel-executor worlds (function check only there)"},
